@@ -131,6 +131,32 @@ func genDepDB(repo, out string) {
 	l.line("def qConcurrencyBeforeWrites : Bool := %s", leanBool(qConcBefore))
 	l.line("/-- Runtime.RegisterController and RegisterQController undo the database writes of a failed NewAdapter -/")
 	l.line("def registrationRollsBack : Bool := %s", leanBool(rollsBack))
+	// dependency/database.go: the two spots of the registry the model transcribes by hand and that seeded changes hit
+	dbf := parse(filepath.Join(repo, "pkg/controller/runtime/internal/dependency/database.go"))
+	neighbourhood, rollbackShared := false, false
+
+	if fd := method(dbf, "Database", "AddControllerInput"); fd != nil && fd.Body != nil {
+		for i, st := range fd.Body.List {
+			if src(st) == "for _, shift := range []int{-1, 0, 1} { if idx+shift >= 0 && idx+shift < len(existingInputs) { if existingInputs[idx+shift].EqualKeys(dep) { return fmt.Errorf(\"duplicate controller input: %q -> %v\", controllerName, dep) } } }" &&
+				i > 0 && src(fd.Body.List[i-1]) == "idx, _ := slices.BinarySearchFunc(existingInputs, dep, controller.Input.Compare)" &&
+				i+1 < len(fd.Body.List) && src(fd.Body.List[i+1]) == "db.controllerInputs[controllerName] = slices.Insert(existingInputs, idx, dep)" {
+				neighbourhood = true
+			}
+		}
+	}
+
+	if fd := method(dbf, "Database", "RollbackController"); fd != nil && fd.Body != nil {
+		for _, st := range fd.Body.List {
+			if src(st) == "for resourceType, sharedControllers := range db.sharedOutputs { if sharedControllers = slices.DeleteFunc(sharedControllers, isController); len(sharedControllers) == 0 { delete(db.sharedOutputs, resourceType) } else { db.sharedOutputs[resourceType] = sharedControllers } }" {
+				rollbackShared = true
+			}
+		}
+	}
+
+	l.line("/-- AddControllerInput: binary search by Input.Compare, duplicate keys looked for at idx-1, idx, idx+1 within bounds, then inserted at idx -/")
+	l.line("def addInputNeighbourhood : Bool := %s", leanBool(neighbourhood))
+	l.line("/-- RollbackController: the controller is removed from every shared-output list, and a list that becomes empty is deleted -/")
+	l.line("def rollbackDropsEmptyShared : Bool := %s", leanBool(rollbackShared))
 	l.write(out, ns)
 }
 
